@@ -133,6 +133,11 @@ type jarStore struct {
 
 func (j jarStore) ReadState(r *http.Request) (authboss.ClientState, error) {
 	b := j.w.Browsers[r.Header.Get("X-Browser")]
+	// a client that sent no session / no cookie at all: the store has no state for it (the library
+	// accepts a nil ClientState; session stores of real applications return one for a new visitor)
+	if b == nil || (j.kind == "sess" && len(b.Sess) == 0) || (j.kind == "cook" && len(b.Cook) == 0) {
+		return nil, nil
+	}
 	m := mapState{}
 	if b != nil {
 		src := b.Sess
